@@ -258,6 +258,8 @@ def gen_case(rng):
     else:
         branches = [{"adapter": rng.choices(kinds, w)[0], "n": 1}, {"adapter": rng.choices(kinds, w)[0], "n": 1}]
     out = gen_info(rng, True, None)
+    if rng.random() < 0.04:
+        out["mask"] = None   # a producer that leaves the mask open: nothing downstream can fill it, no input may end up with it
     if out["grid"] in NOGRID1:
         for b in branches:
             if b["adapter"] in ("regrid", "g2v"):
@@ -285,7 +287,7 @@ def gen_case(rng):
 def make_info(spec):
     kw = {k: v for k, v in spec["meta"]}
     m = spec["mask"]
-    mask = fm.Mask.FLEX if m == "flex" else fm.Mask.NONE if m == "none" else MASKS[m]
+    mask = None if m is None else fm.Mask.FLEX if m == "flex" else fm.Mask.NONE if m == "none" else MASKS[m]
     return fm.Info(time=None if spec["time"] is None else T(spec["time"] * DAY_US),
                    grid=None if spec["grid"] is None else GRIDS[spec["grid"]][1],
                    units=None if spec["units"] is None else unit_obj(spec["units"]),
